@@ -304,9 +304,9 @@ class DMRS(scope.ScopingSemanticStructure):
         scopes = scope.conjoin(prescopes, leqs)
         top = None
         if self.top is not None:
-            top_node = self[self.top]
+            top_id = self[self.top].id
             top = next((label for label, nodes in scopes.items()
-                        if top_node in nodes),
+                        if any(node.id == top_id for node in nodes)),
                        None)
 
         return top, scopes
